@@ -1233,3 +1233,455 @@ Proof.
   rewrite Hf in *. split; [reflexivity|]. split; [|lia].
   unfold stall_st. destruct (new_stall _ _); reflexivity.
 Qed.
+
+(** ** shapes of the stage outputs (non-faulting) *)
+Lemma is_ecall_true i : is_ecall i = true -> i = IEcall.
+Proof. destruct i; cbn [is_ecall]; intros H; try discriminate; reflexivity. Qed.
+
+Lemma wb_on_shape x s n s' : wb_on x s = (n, s', None) -> n = option_map wb_slot x.
+Proof.
+  destruct x as [y|]; [rewrite wb_on_some|rewrite wb_on_none]; intros H.
+  - destruct (write_back _ _ _ _) as [s2 [e0|]]; inv H; reflexivity.
+  - inv H; reflexivity.
+Qed.
+
+Lemma mem_on_shape x s n s' : mem_on x s = (n, s', None) ->
+  match x with None => n = None | Some y => exists rd, n = Some (mem_slot y rd) end.
+Proof.
+  destruct x as [y|]; [rewrite mem_on_some|rewrite mem_on_none]; intros H.
+  - destruct (memory_access _ _ _ _) as [[rd|e0] s1]; inv H. eexists; reflexivity.
+  - inv H; reflexivity.
+Qed.
+
+Lemma ex_on_shape x l2 l3 s n s' : ex_on x l2 l3 s = (n, s', None) ->
+  match x with
+  | None => n = None
+  | Some y => exists cmp res stall ex fl, n = Some (ex_slot y cmp res stall ex fl) /\
+      stall = is_ecall (sl_instr y) && ex_busy y l2 l3 /\
+      ((ex = None /\ fl = None) \/
+       (is_ecall (sl_instr y) = true /\ ex_busy y l2 l3 = false /\
+        exists c, ex = Some c /\ fl = Some (sl_addr y + 4)))
+  end.
+Proof.
+  destruct x as [y|]; [rewrite ex_on_some|rewrite ex_on_none]; intros H; [|inv H; reflexivity].
+  destruct (alu_compute _ _ _) as [[cmp res]|e0]; [|inv H].
+  destruct (is_ecall (sl_instr y)) eqn:He.
+  - destruct (ex_busy y l2 l3) eqn:Hb.
+    + inv H. do 5 eexists. split; [reflexivity|]. split; [reflexivity|]. left; split; reflexivity.
+    + destruct (process_ecall s) as [[[t|c]|e0] s1]; inv H.
+      * do 5 eexists. split; [reflexivity|]. split; [reflexivity|]. left; split; reflexivity.
+      * do 5 eexists. split; [reflexivity|]. split; [reflexivity|]. right.
+        repeat split. eexists; split; reflexivity.
+  - inv H. do 5 eexists. split; [reflexivity|]. split; [reflexivity|]. left; split; reflexivity.
+Qed.
+
+(* faulting stages return an empty latch *)
+Lemma wb_on_fault x s n s' e : wb_on x s = (n, s', Some e) -> n = None.
+Proof.
+  destruct x as [y|]; [rewrite wb_on_some|rewrite wb_on_none]; intros H.
+  - destruct (write_back _ _ _ _) as [s2 [e0|]]; inv H; reflexivity.
+  - inv H.
+Qed.
+Lemma ex_on_fault x l2 l3 s n s' e : ex_on x l2 l3 s = (n, s', Some e) -> n = None.
+Proof.
+  destruct x as [y|]; [rewrite ex_on_some|rewrite ex_on_none]; intros H; [|inv H].
+  destruct (alu_compute _ _ _) as [[cmp res]|e0]; [|inv H; reflexivity].
+  destruct (is_ecall (sl_instr y)); [|inv H].
+  destruct (ex_busy y l2 l3); [inv H|].
+  destruct (process_ecall s) as [[[t|c]|e0] s1]; inv H. reflexivity.
+Qed.
+
+Lemma fault_at_not_none x e : fault_at x e <> None.
+Proof. unfold fault_at, fault_of. destruct (lat_at [x] 0); discriminate. Qed.
+(* H : (_, _, fault_at x e) = (_, _, None) *)
+Ltac nofault H := exfalso; injection H as _ _ H; exact (fault_at_not_none _ _ H).
+
+(** ** [pipe_step] per stall mode *)
+Definition bumped (s : st) : st := with_cycles s (cycles s + 1).
+
+Definition finish (p : pstate) (r : list latch * st * option fault) : pstate * option fault :=
+  match r with
+  | (_, s, Some f) => (faulted p s, Some f)
+  | (next, s, None) => (post p next s, None)
+  end.
+
+Lemma pipe_step_normal p l0 l1 l2 l3 l4 : lat p = [l0; l1; l2; l3; l4] -> stalled p = None ->
+  pipe_step p = finish p (run_normal (hazards p) l0 l1 l2 l3 (bumped (pst p))).
+Proof.
+  intros Hl Hs. rewrite pipe_step_eq.
+  rewrite (run_stages_normal (bump p) l0 l1 l2 l3 l4) by assumption. reflexivity.
+Qed.
+Lemma pipe_step_stall1 p l0 l1 l2 l3 l4 d : lat p = [l0; l1; l2; l3; l4] -> stalled p = Some (1, d) ->
+  pipe_step p = finish p (run_stall1 (hazards p) (sv_at p 0) l0 l1 l2 l3 (bumped (pst p))).
+Proof.
+  intros Hl Hs. rewrite pipe_step_eq.
+  rewrite (run_stages_stall1 (bump p) l0 l1 l2 l3 l4 d) by assumption. reflexivity.
+Qed.
+Lemma pipe_step_stall2 p l0 l1 l2 l3 l4 d : lat p = [l0; l1; l2; l3; l4] -> stalled p = Some (2, d) ->
+  pipe_step p = finish p (run_stall2 (hazards p) (sv_at p 0) (sv_at p 1) l0 l1 l2 l3 (bumped (pst p))).
+Proof.
+  intros Hl Hs. rewrite pipe_step_eq.
+  rewrite (run_stages_stall2 (bump p) l0 l1 l2 l3 l4 d) by assumption. reflexivity.
+Qed.
+
+(** ** L0.5  write-back before decode *)
+
+(* the register file after the WB stage has processed latch x in state s *)
+Definition wb_regs (x : latch) (s : st) : zmap :=
+  match x with
+  | None => regs s
+  | Some y => regs (fst (write_back (sl_instr y) (sl_wreg y) (wb_data y) s))
+  end.
+
+Lemma write_back_regs_ext i w d s s' : regs s = regs s' ->
+  regs (fst (write_back i w d s)) = regs (fst (write_back i w d s')).
+Proof.
+  intros H. unfold write_back, rset.
+  destruct i, w, d; cbn [fst]; try exact H; destruct (_ && _); stf; congruence.
+Qed.
+
+Lemma wb_regs_ext x s s' : regs s = regs s' -> wb_regs x s = wb_regs x s'.
+Proof. intros H. destruct x as [y|]; cbn [wb_regs]; [apply write_back_regs_ext|]; exact H. Qed.
+
+Lemma wb_on_regs x s n s2 : wb_on x s = (n, s2, None) -> regs s2 = wb_regs x s.
+Proof.
+  destruct x as [y|]; [rewrite wb_on_some|rewrite wb_on_none]; intros H; [|inv H; reflexivity].
+  cbn [wb_regs]. rewrite (write_back_regs_ext _ _ _ s (with_icount s (icount s + 1))) by reflexivity.
+  destruct (write_back _ _ _ _) as [s3 [e|]]; inv H. cbn [fst]. unfold wb_exit.
+  destruct (sl_exit y); reflexivity.
+Qed.
+
+(* the decode stage looks at the state only through the register file *)
+Lemma access_rf_ext i s s' : regs s = regs s' -> access_rf i s = access_rf i s'.
+Proof. intros H. unfold access_rf, rget. rewrite H. reflexivity. Qed.
+
+Lemma id_on_ext hz x l1 l2 s s' : regs s = regs s' -> id_on hz x l1 l2 s = id_on hz x l1 l2 s'.
+Proof.
+  intros H. destruct x as [y|]; [|reflexivity]. rewrite !id_on_some.
+  unfold id_slot, id_stall, rf_ra1, rf_ra2, rf_rd1, rf_rd2, rf_imm.
+  rewrite (access_rf_ext _ s s' H). reflexivity.
+Qed.
+
+(* the slot the decode stage works on in this cycle *)
+Definition id_input (p : pstate) : latch :=
+  match stalled p with None => lat_at (lat p) 0 | Some _ => sv_at p 0 end.
+
+(* In every mode the latch written by ID is the decode of its input against the register file
+   as it is AFTER the WB stage of the same cycle has written. *)
+Theorem wb_before_id p l0 l1 l2 l3 l4 next s :
+  lat p = [l0; l1; l2; l3; l4] ->
+  (stalled p = None \/ exists k d, stalled p = Some (k, d) /\ (k = 1 \/ k = 2)) ->
+  run_stages p = (next, s, None) ->
+  lat_at next 1 =
+  id_on (hazards p) (id_input p) l1 l2 (with_regs (pst p) (wb_regs l3 (pst p))).
+Proof.
+  intros Hl Hm Hr. unfold id_input. rewrite Hl. lat5.
+  destruct Hm as [Hs|(k & d & Hs & [->| ->])]; rewrite Hs.
+  - rewrite (run_stages_normal p l0 l1 l2 l3 l4 Hl Hs) in Hr. unfold run_normal in Hr.
+    destruct (stage_if (pst p)) as [n0 s1] eqn:HIF. apply stage_if_law in HIF.
+    destruct HIF as (Hrg & _).
+    destruct (wb_on l3 s1) as [[n4 s2] [e|]] eqn:HWB; [nofault Hr|]. apply wb_on_regs in HWB.
+    destruct (ex_on l1 l2 l3 s2) as [[n2 s3] [e|]]; [nofault Hr|].
+    destruct (mem_on l2 s3) as [[n3 s4] [e|]]; [nofault Hr|]. inv Hr. lat5.
+    apply id_on_ext. stf. rewrite HWB. apply wb_regs_ext. exact Hrg.
+  - rewrite (run_stages_stall1 p l0 l1 l2 l3 l4 d Hl Hs) in Hr. unfold run_stall1 in Hr.
+    destruct (wb_on l3 (pst p)) as [[n4 s2] [e|]] eqn:HWB; [nofault Hr|]. apply wb_on_regs in HWB.
+    destruct (mem_on l2 s2) as [[n3 s4] [e|]]; [nofault Hr|]. inv Hr. lat5.
+    apply id_on_ext. stf. exact HWB.
+  - rewrite (run_stages_stall2 p l0 l1 l2 l3 l4 d Hl Hs) in Hr. unfold run_stall2 in Hr.
+    destruct (wb_on l3 (pst p)) as [[n4 s2] [e|]] eqn:HWB; [nofault Hr|]. apply wb_on_regs in HWB.
+    destruct (ex_on (sv_at p 1) l2 l3 s2) as [[n2 s3] [e|]]; [nofault Hr|]. inv Hr. lat5.
+    apply id_on_ext. stf. exact HWB.
+Qed.
+
+(* the operands latched: rs values of the post-WB register file *)
+Corollary wb_before_id_operands p l0 l1 l2 l3 l4 next s y :
+  lat p = [l0; l1; l2; l3; l4] ->
+  (stalled p = None \/ exists k d, stalled p = Some (k, d) /\ (k = 1 \/ k = 2)) ->
+  run_stages p = (next, s, None) -> id_input p = Some y ->
+  exists z, lat_at next 1 = Some z /\ sl_instr z = sl_instr y /\ sl_addr z = sl_addr y /\
+    (sl_ra1 z, sl_ra2 z, sl_rd1 z, sl_rd2 z, sl_imm z) =
+      access_rf (sl_instr y) (with_regs (pst p) (wb_regs l3 (pst p))).
+Proof.
+  intros Hl Hm Hr Hy. rewrite (wb_before_id _ _ _ _ _ _ _ _ Hl Hm Hr), Hy, id_on_some.
+  eexists; split; [reflexivity|]. cbn [id_slot sl_instr sl_addr sl_ra1 sl_ra2 sl_rd1 sl_rd2 sl_imm].
+  unfold rf_ra1, rf_ra2, rf_rd1, rf_rd2, rf_imm.
+  destruct (access_rf _ _) as [[[[a b] c] d] e]. repeat split.
+Qed.
+
+(** ** L0.7  stall countdown *)
+
+(* a flush raised by a stage behind stage k cancels the stall of stage k *)
+Definition flush_cancels (next : list latch) (k : Z) : bool :=
+  match first_flush next with Some (i, _) => k <? i | None => false end.
+
+Lemma post_stalled_saved p next s stl2 sv2 s1 :
+  stall_part (stalled p) (saved p) (lat p) next s = (stl2, sv2, s1) ->
+  stalled (post p next s) =
+    match stl2 with Some (k, _) => if flush_cancels next k then None else stl2 | None => None end /\
+  saved (post p next s) =
+    match stl2 with Some (k, _) => if flush_cancels next k then None else sv2 | None => sv2 end.
+Proof.
+  intros H. unfold post, flush_part, flush_cancels. rewrite H.
+  destruct (first_flush next) as [[i a]|].
+  - destruct stl2 as [[k d]|]; [destruct (k <? i)|]; split; reflexivity.
+  - destruct stl2 as [[k d]|]; split; reflexivity.
+Qed.
+
+(* detection: the step in which stage k raises a (counting) stall signal ends with (k, 2)
+   — "3 minus the immediate decrement" — and the old inputs of stages < k in the skid registers *)
+Theorem stall_detect p next s k : stalled p = None -> saved p = None ->
+  run_stages (bump p) = (next, s, None) -> new_stall next None = Some k ->
+  let p' := fst (pipe_step p) in
+  stalls (pst p') = stalls (pst p) + 1 /\
+  if flush_cancels next k then stalled p' = None /\ saved p' = None
+  else stalled p' = Some (k, 2) /\
+       saved p' = Some (map mark_saved (firstn (Z.to_nat k) (lat p))).
+Proof.
+  intros Hs Hv Hr Hn. cbv zeta.
+  destruct (counters_step _ _ _ Hr) as (Hst & _). cbv zeta in Hst. rewrite Hs, Hn in Hst.
+  split; [exact Hst|]. rewrite pipe_step_eq, Hr. cbn [fst].
+  destruct (post_stalled_saved p next s _ _ _ (eq_trans
+     (f_equal2 (fun a b => stall_part a b (lat p) next s) Hs Hv) (stall_part_new _ _ _ _ Hn))) as [H1 H2].
+  rewrite H1, H2. destruct (flush_cancels next k); split; reflexivity.
+Qed.
+
+(* first stalled cycle: (k, 2) -> (k, 1), skid registers kept *)
+Theorem stall_first p next s k sv : stalled p = Some (k, 2) -> saved p = Some sv ->
+  run_stages (bump p) = (next, s, None) -> new_stall next (Some (k, 2)) = None ->
+  let p' := fst (pipe_step p) in
+  stalls (pst p') = stalls (pst p) /\
+  if flush_cancels next k then stalled p' = None /\ saved p' = None
+  else stalled p' = Some (k, 1) /\ saved p' = Some sv.
+Proof.
+  intros Hs Hv Hr Hn. cbv zeta.
+  destruct (counters_step _ _ _ Hr) as (Hst & _). cbv zeta in Hst. rewrite Hs, Hn in Hst.
+  split; [lia|]. rewrite pipe_step_eq, Hr. cbn [fst].
+  destruct (post_stalled_saved p next s _ _ _ (eq_trans
+     (f_equal2 (fun a b => stall_part a b (lat p) next s) Hs Hv) (stall_part_first _ _ _ _ _ Hn))) as [H1 H2].
+  rewrite H1, H2. destruct (flush_cancels next k); split; reflexivity.
+Qed.
+
+(* second stalled cycle: (k, 1) -> not stalled, skid registers dropped *)
+Theorem stall_last p next s k sv : stalled p = Some (k, 1) -> saved p = Some sv ->
+  run_stages (bump p) = (next, s, None) -> new_stall next (Some (k, 1)) = None ->
+  let p' := fst (pipe_step p) in
+  stalls (pst p') = stalls (pst p) /\ stalled p' = None /\ saved p' = None.
+Proof.
+  intros Hs Hv Hr Hn. cbv zeta.
+  destruct (counters_step _ _ _ Hr) as (Hst & _). cbv zeta in Hst. rewrite Hs, Hn in Hst.
+  split; [lia|]. rewrite pipe_step_eq, Hr. cbn [fst].
+  destruct (post_stalled_saved p next s _ _ _ (eq_trans
+     (f_equal2 (fun a b => stall_part a b (lat p) next s) Hs Hv) (stall_part_last _ _ _ _ _ Hn))) as [H1 H2].
+  rewrite H1, H2. split; reflexivity.
+Qed.
+
+(* not stalled and no stall signal: stays not stalled *)
+Theorem stall_idle p next s : stalled p = None -> saved p = None ->
+  run_stages (bump p) = (next, s, None) -> new_stall next None = None ->
+  let p' := fst (pipe_step p) in
+  stalls (pst p') = stalls (pst p) /\ stalled p' = None /\ saved p' = None.
+Proof.
+  intros Hs Hv Hr Hn. cbv zeta.
+  destruct (counters_step _ _ _ Hr) as (Hst & _). cbv zeta in Hst. rewrite Hs, Hn in Hst.
+  split; [lia|]. rewrite pipe_step_eq, Hr. cbn [fst].
+  destruct (post_stalled_saved p next s _ _ _ (eq_trans
+     (f_equal2 (fun a b => stall_part a b (lat p) next s) Hs Hv) (stall_part_idle _ _ _ Hn))) as [H1 H2].
+  rewrite H1, H2. split; reflexivity.
+Qed.
+
+(* while stage k is stalled, stall signals of stages <= k are ignored: with only ID and EX able
+   to raise one, no new stall can start while EX (k = 2) is stalled *)
+Lemma new_stall_ignored_2 n0 n1 n2 n3 n4 d :
+  has_stall n0 = false -> has_stall n3 = false -> has_stall n4 = false ->
+  new_stall [n0; n1; n2; n3; n4] (Some (2, d)) = None.
+Proof.
+  intros H0 H3 H4. rewrite new_stall_5 by assumption. cbn [above]. change (2 <? 2) with false.
+  change (2 <? 1) with false. rewrite !Bool.andb_false_r. reflexivity.
+Qed.
+(* ... and while ID (k = 1) is stalled EX receives a bubble, so its output carries no signal *)
+Lemma new_stall_ignored_1 n0 n1 n3 n4 d :
+  has_stall n0 = false -> has_stall n3 = false -> has_stall n4 = false ->
+  new_stall [n0; n1; None; n3; n4] (Some (1, d)) = None.
+Proof.
+  intros H0 H3 H4. rewrite new_stall_5 by assumption. cbn [above has_stall andb].
+  change (1 <? 1) with false. rewrite !Bool.andb_false_r. reflexivity.
+Qed.
+
+(** ** the interlock law: while ID is stalled no instruction enters EX *)
+Lemma clear_prefix_keeps_none l n j : nth j l None = None -> nth j (clear_prefix l n) (@None slot) = None.
+Proof.
+  intros H. destruct (Nat.lt_ge_cases j n) as [Hlt|Hge].
+  - apply clear_prefix_below; exact Hlt.
+  - rewrite clear_prefix_above by exact Hge. exact H.
+Qed.
+
+Theorem interlock_ex_bubble p l0 l1 l2 l3 l4 d : lat p = [l0; l1; l2; l3; l4] ->
+  stalled p = Some (1, d) -> snd (pipe_step p) = None ->
+  lat_at (lat (fst (pipe_step p))) 2 = None.
+Proof.
+  intros Hl Hs Hok. rewrite (pipe_step_stall1 p l0 l1 l2 l3 l4 d Hl Hs) in *.
+  unfold run_stall1 in *.
+  destruct (wb_on l3 (bumped (pst p))) as [[n4 s2] [e|]]; [cbn [finish snd] in Hok; destruct (fault_at l3 e) eqn:Hf; [discriminate|exact (False_ind _ (fault_at_not_none _ _ Hf))]|].
+  destruct (mem_on l2 s2) as [[n3 s4] [e|]]; [cbn [finish snd] in Hok; destruct (fault_at l2 e) eqn:Hf; [discriminate|exact (False_ind _ (fault_at_not_none _ _ Hf))]|].
+  cbn [finish fst]. rewrite post_lat.
+  destruct (first_flush _) as [[i a]|]; [|reflexivity].
+  unfold lat_at, nthZ. apply clear_prefix_keeps_none. reflexivity.
+Qed.
+
+(** ** L0.6 (second half)  control transfers are resolved in MEM, fetch is redirected next cycle *)
+
+(* IF always writes latch 0 when the pipeline is not stalled, and it fetches at the current pc *)
+Lemma if_latch p next s f : stalled p = None -> run_stages p = (next, s, f) ->
+  lat_at next 0 = fst (stage_if (pst p)).
+Proof.
+  intros Hs Hr. unfold run_stages in Hr. rewrite Hs in Hr.
+  destruct (stage_if (pst p)) as [n0 s1]. cbn [fst].
+  destruct (stage_wb _ _ _) as [[n4 s2] [e|]]; [inv Hr; reflexivity|].
+  destruct (stage_ex _ _ _) as [[n2 s3] [e|]]; [inv Hr; reflexivity|].
+  destruct (stage_mem _ _ _) as [[n3 s4] [e|]]; inv Hr; reflexivity.
+Qed.
+
+Lemma if_fetches_at_pc p next s f : stalled p = None -> run_stages (bump p) = (next, s, f) ->
+  lat_at next 0 = None \/ exists i, lat_at next 0 = Some (slot_if i (pc (pst p))).
+Proof.
+  intros Hs Hr. rewrite (if_latch (bump p) next s f Hs Hr).
+  destruct (stage_if (pst (bump p))) as [n0 s1] eqn:HIF. apply stage_if_law in HIF.
+  destruct HIF as (_ & _ & _ & _ & _ & _ & _ & _ & _ & _ & _ & _ & _ & [[-> _]|(i & -> & _)]).
+  - left; reflexivity.
+  - right; exists i; reflexivity.
+Qed.
+
+(* a slot in the EX latch (the MEM input) whose [mem_flush] is [Some a] — a taken branch, a jal,
+   a jalr (or an exiting ecall) — redirects in THIS step, provided WB does not flush as well
+   (an exiting ecall one stage ahead has priority) *)
+Theorem redirect_in_mem p l0 l1 l2 l3 l4 y a :
+  lat p = [l0; l1; l2; l3; l4] ->
+  (stalled p = None \/ (exists d, stalled p = Some (1, d)) /\ has_stall l0 = false /\ flush_of l0 = None) ->
+  l2 = Some y -> mem_flush y = Some a ->
+  match l3 with Some w => sl_exit w = None | None => True end ->
+  snd (pipe_step p) = None ->
+  let p' := fst (pipe_step p) in
+  pc (pst p') = a /\ flushes (pst p') = flushes (pst p) + 1 /\
+  lat_at (lat p') 0 = None /\ lat_at (lat p') 1 = None /\ lat_at (lat p') 2 = None /\
+  (exists rd, lat_at (lat p') 3 = Some (mem_slot y rd)) /\
+  stalled p' = None.
+Proof.
+  intros Hl Hm -> Hfl Hex Hok. cbv zeta.
+  (* common tail: given the computed latches *)
+  assert (K : forall n0 n1 n2 n4 rd s,
+     run_stages (bump p) = ([n0; n1; n2; Some (mem_slot y rd); n4], s, None) ->
+     has_stall n0 = false -> flush_of n0 = None -> flush_of n1 = None -> flush_of n4 = None ->
+     has_stall n4 = false ->
+     pc (pst (fst (pipe_step p))) = a /\ flushes (pst (fst (pipe_step p))) = flushes (pst p) + 1 /\
+     lat_at (lat (fst (pipe_step p))) 0 = None /\ lat_at (lat (fst (pipe_step p))) 1 = None /\
+     lat_at (lat (fst (pipe_step p))) 2 = None /\
+     (exists rd, lat_at (lat (fst (pipe_step p))) 3 = Some (mem_slot y rd)) /\
+     stalled (fst (pipe_step p)) = None).
+  { intros n0 n1 n2 n4 rd s Hr Hs0 Hf0 Hf1 Hf4 Hs4.
+    assert (Hff : first_flush [n0; n1; n2; Some (mem_slot y rd); n4] = Some (3, a)).
+    { rewrite first_flush_5 by assumption. rewrite Hf4. cbn [flush_of mem_slot sl_flush]. rewrite Hfl. reflexivity. }
+    destruct (flush_law p _ _ _ _ Hr Hff) as (Hpc & Hflc & Hlat & Hbelow & Habove & Hstl).
+    split; [exact Hpc|]. split; [exact Hflc|].
+    split; [apply Hbelow; lia|]. split; [apply Hbelow; lia|]. split; [apply Hbelow; lia|].
+    split; [exists rd; rewrite Habove by lia; reflexivity|].
+    destruct (stalled (fst (pipe_step p))) as [[k d]|] eqn:Hst; [|reflexivity]. exfalso.
+    specialize (Hstl k d eq_refl).
+    (* the stall register after the stall bookkeeping names stage 1 or 2 *)
+    rewrite pipe_step_eq, Hr in Hst. cbn [fst] in Hst.
+    destruct (stall_part (stalled p) (saved p) (lat p) [n0; n1; n2; Some (mem_slot y rd); n4] s)
+      as [[stl2 sv2] s1] eqn:Hsp.
+    destruct (post_stalled_saved p _ s _ _ _ Hsp) as [H1 _]. rewrite H1 in Hst.
+    destruct stl2 as [[k' d']|]; [|discriminate].
+    destruct (flush_cancels _ k'); [discriminate|]. inv Hst.
+    unfold stall_part in Hsp. rewrite new_stall_5 in Hsp by (assumption || reflexivity).
+    destruct Hm as [Hs|[[d0 Hs] _]]; rewrite Hs in Hsp; cbn [above] in Hsp;
+      repeat match type of Hsp with
+             | context [if ?c then _ else _] => destruct c
+             | context [match saved p with _ => _ end] => destruct (saved p)
+             end; inv Hsp; lia. }
+  destruct Hm as [Hs|[[d Hs] [Hs0 Hf0]]].
+  - rewrite (pipe_step_normal p _ _ _ _ _ Hl Hs) in Hok.
+    pose proof (run_stages_normal (bump p) _ _ _ _ _ Hl Hs) as Hr.
+    change (hazards (bump p)) with (hazards p) in Hr. change (pst (bump p)) with (bumped (pst p)) in Hr.
+    unfold run_normal in Hok, Hr.
+    destruct (stage_if (bumped (pst p))) as [n0 s1] eqn:HIF. apply stage_if_flags in HIF. destruct HIF as [Hs0 Hf0].
+    destruct (wb_on l3 s1) as [[n4 s2] [e|]] eqn:HWB;
+      [cbn [finish snd] in Hok; destruct (fault_at l3 e) eqn:Hf; [discriminate|exact (False_ind _ (fault_at_not_none _ _ Hf))]|].
+    pose proof (wb_on_flags _ _ _ _ _ HWB) as Hs4. apply wb_on_shape in HWB. subst n4.
+    destruct (ex_on l1 (Some y) l3 s2) as [[n2 s3] [e|]];
+      [cbn [finish snd] in Hok; destruct (fault_at l1 e) eqn:Hf; [discriminate|exact (False_ind _ (fault_at_not_none _ _ Hf))]|].
+    destruct (mem_on (Some y) s3) as [[n3 s4] [e|]] eqn:HMEM;
+      [cbn [finish snd] in Hok; destruct (fault_at (Some y) e) eqn:Hf; [discriminate|exact (False_ind _ (fault_at_not_none _ _ Hf))]|].
+    apply mem_on_shape in HMEM. destruct HMEM as [rd ->].
+    eapply K; [exact Hr|assumption|assumption|apply id_on_flags| |assumption].
+    destruct l3 as [w|]; cbn [option_map flush_of wb_slot sl_flush]; [|reflexivity].
+    unfold wb_flush. rewrite Hex. reflexivity.
+  - rewrite (pipe_step_stall1 p _ _ _ _ _ d Hl Hs) in Hok.
+    pose proof (run_stages_stall1 (bump p) _ _ _ _ _ d Hl Hs) as Hr.
+    change (hazards (bump p)) with (hazards p) in Hr. change (pst (bump p)) with (bumped (pst p)) in Hr.
+    change (sv_at (bump p) 0) with (sv_at p 0) in Hr.
+    unfold run_stall1 in Hok, Hr.
+    destruct (wb_on l3 (bumped (pst p))) as [[n4 s2] [e|]] eqn:HWB;
+      [cbn [finish snd] in Hok; destruct (fault_at l3 e) eqn:Hf; [discriminate|exact (False_ind _ (fault_at_not_none _ _ Hf))]|].
+    pose proof (wb_on_flags _ _ _ _ _ HWB) as Hs4. apply wb_on_shape in HWB. subst n4.
+    destruct (mem_on (Some y) s2) as [[n3 s4] [e|]] eqn:HMEM;
+      [cbn [finish snd] in Hok; destruct (fault_at (Some y) e) eqn:Hf; [discriminate|exact (False_ind _ (fault_at_not_none _ _ Hf))]|].
+    apply mem_on_shape in HMEM. destruct HMEM as [rd ->].
+    eapply K; [exact Hr|assumption|assumption|apply id_on_flags| |assumption].
+    destruct l3 as [w|]; cbn [option_map flush_of wb_slot sl_flush]; [|reflexivity].
+    unfold wb_flush. rewrite Hex. reflexivity.
+Qed.
+
+(* which instructions redirect: jumps always, branches when taken, jalr always *)
+Lemma mem_flush_jal y rd imm abs : sl_instr y = IJal rd imm abs -> mem_flush y = sl_pcimm y.
+Proof. unfold mem_flush. intros ->. reflexivity. Qed.
+Lemma mem_flush_jalr y rd rs1 imm : sl_instr y = IJalr rd rs1 imm -> mem_flush y = sl_result y.
+Proof. unfold mem_flush. intros ->. reflexivity. Qed.
+Lemma mem_flush_branch y o rs1 rs2 imm : sl_instr y = IBranch o rs1 rs2 imm ->
+  mem_flush y = match sl_cmp y with
+                | Some true => sl_pcimm y
+                | _ => match sl_exit y with Some _ => Some (sl_addr y + 4) | None => None end
+                end.
+Proof. unfold mem_flush. intros ->. cbn. destruct (sl_cmp y) as [[|]|]; reflexivity. Qed.
+
+(** ** L0.4 (last clause)  with the flag off the stall counter moves only for an ecall in EX *)
+Theorem nohaz_stalls_only_ecall p l0 l1 l2 l3 l4 :
+  lat p = [l0; l1; l2; l3; l4] -> hazards p = false -> has_stall l0 = false ->
+  (stalled p = None \/ exists k d, stalled p = Some (k, d) /\ (k = 1 \/ k = 2)) ->
+  stalls (pst (fst (pipe_step p))) <> stalls (pst p) ->
+  stalled p = None /\ exists y, l1 = Some y /\ sl_instr y = IEcall /\ ex_busy y l2 l3 = true.
+Proof.
+  intros Hl Hz H0 Hm Hne.
+  destruct (run_stages (bump p)) as [[next s] [f|]] eqn:Hr.
+  { destruct (counters_fault _ _ _ _ Hr) as (Hst & _). cbv zeta in Hst. congruence. }
+  destruct (counters_step _ _ _ Hr) as (Hst & _). cbv zeta in Hst.
+  destruct (nohaz_new_stall p next s None Hz) as [_ [Hn|Hn]];
+    [rewrite Hl; exact H0|exact Hr|rewrite Hn in Hst; lia|].
+  clear Hst Hne.
+  destruct Hm as [Hs|(k & d & Hs & [->| ->])].
+  - split; [exact Hs|]. rewrite (run_stages_normal (bump p) _ _ _ _ _ Hl Hs) in Hr.
+    change (hazards (bump p)) with (hazards p) in Hr. rewrite Hz in Hr.
+    unfold run_normal in Hr.
+    destruct (stage_if _) as [n0 s1] eqn:HIF. apply stage_if_flags in HIF. destruct HIF as [Hs0 _].
+    destruct (wb_on l3 s1) as [[n4 s2] [e|]] eqn:HWB; [nofault Hr|].
+    apply wb_on_flags in HWB.
+    destruct (ex_on l1 l2 l3 s2) as [[n2 s3] [e|]] eqn:HEX; [nofault Hr|].
+    destruct (mem_on l2 s3) as [[n3 s4] [e|]] eqn:HMEM; [nofault Hr|].
+    apply mem_on_flags in HMEM. inv Hr.
+    rewrite new_stall_5 in Hn by assumption. rewrite Hs in Hn. cbn [above] in Hn.
+    rewrite (nohaz_id_no_stall) in Hn. cbn [andb] in Hn. rewrite Bool.andb_true_r in Hn.
+    destruct (has_stall n2) eqn:Hs2; [|discriminate].
+    apply ex_on_shape in HEX. destruct l1 as [y|]; [|subst n2; discriminate].
+    destruct HEX as (cmp & res & stall & ex & fl & -> & Hstall & _). cbn [has_stall ex_slot sl_stall] in Hs2.
+    subst stall. apply Bool.andb_true_iff in Hs2. destruct Hs2 as [He Hb].
+    exists y. split; [reflexivity|]. split; [apply is_ecall_true; exact He|exact Hb].
+  - exfalso. rewrite (run_stages_stall1 (bump p) _ _ _ _ _ d Hl Hs) in Hr. unfold run_stall1 in Hr.
+    destruct (wb_on l3 _) as [[n4 s2] [e|]] eqn:HWB; [nofault Hr|]. apply wb_on_flags in HWB.
+    destruct (mem_on l2 s2) as [[n3 s4] [e|]] eqn:HMEM; [nofault Hr|]. apply mem_on_flags in HMEM.
+    inv Hr. rewrite Hs, new_stall_ignored_1 in Hn by assumption. discriminate.
+  - exfalso. rewrite (run_stages_stall2 (bump p) _ _ _ _ _ d Hl Hs) in Hr. unfold run_stall2 in Hr.
+    destruct (wb_on l3 _) as [[n4 s2] [e|]] eqn:HWB; [nofault Hr|]. apply wb_on_flags in HWB.
+    destruct (ex_on _ l2 l3 s2) as [[n2 s3] [e|]] eqn:HEX; [nofault Hr|].
+    inv Hr. rewrite Hs, new_stall_ignored_2 in Hn by (assumption || reflexivity). discriminate.
+Qed.
